@@ -25,6 +25,7 @@ RULE = ("cases = (frame of 1..N rows with duplicate and missing geometries and 1
 ASSUMPTIONS = ["flat tempdir formats whose parent directory exists beforehand, so every directory the "
                "call creates is one it promised to delete",
                "synchronous scheduler; the sandbox directory is used by nothing else during a run"]
+USE_CONTRACTS = True      # in-situ icontract monitors (vmon/contracts.py)
 DECIDING_COUNTERS = ["packs_returned", "fs_events"]
 
 RETRY = dict(wait_fixed=1, stop_max_attempt_number=3)
